@@ -160,6 +160,14 @@ def build(case):
     else:
         fa = FluxSurfaceAdvection(*args)
     rs, vs = int(lay.starts[lay.inv_dims_order[0]]), int(lay.starts[lay.inv_dims_order[3]])
+    # the operator has been built: its tables are fixed.  The Constants object it was given is changed afterwards (re-used to set up
+    # another operator); the reference computations use an untouched copy
+    Cref = Constants()
+    Cref.iotaVal = case['iota']
+    Cref.R0 = C.R0
+    C.iotaVal = -3.3 * (1.0 + abs(case['iota']))
+    C.R0 = 0.37 * C.R0
+    C = Cref
     return dict(bs=bs, kn=kn, mknots=mknots, theta=theta, z=z, r=r, v=v, C=C, lay=lay, fa=fa, rs=rs, vs=vs,
                 nr=int(lay.shape[lay.inv_dims_order[0]]), nv=int(lay.shape[lay.inv_dims_order[3]]), rng=rng)
 
